@@ -1,5 +1,5 @@
 (* Properties/C08.v — Unready or out-of-sync shards are left alone until they are in sync. *)
-From KV Require Import Base.Util Base.AMap Model.Coordinator Model.CoordCheck Proofs.CoordCycle.
+From KV Require Import Base.Util Base.AMap Model.Coordinator Model.CoordCheck Proofs.CoordC01 Proofs.CoordCycle Proofs.CoordC19.
 Local Open Scope list_scope.
 Local Open Scope Z_scope.
 
@@ -57,3 +57,12 @@ Theorem C08_full_log : forall o i sch k, (k < length (i_shards i))%nat ->
     (In PostTargets tail <-> post_at ob k <> None).
 Proof. exact log_at_cycle. Qed.
 Print Assumptions C08_full_log.
+
+(* targets a reachable shard (in sync or not) reports scraping are not assigned a second time elsewhere:
+   a first assignment only ever concerns a discovered target that no shard reported *)
+Theorem C08_no_second_assignment : forall o i sch e k,
+  NoDupReports i ->
+  In e (o_events (cycle o i sch)) -> ev_kind_of e = First ->
+  is_active (i_active i) (ev_hash e) = true /\ ~ In (ev_hash e) (akeys (reported i k)).
+Proof. exact c08_no_second_assignment. Qed.
+Print Assumptions C08_no_second_assignment.
